@@ -1,8 +1,12 @@
 package c14
 
 import (
+	"bytes"
 	"fmt"
+	"github.com/apparentlymart/go-textseg/v15/textseg"
 	"strings"
+	"unicode"
+	"unicode/utf8"
 
 	"github.com/hashicorp/hcl/v2"
 	"github.com/hashicorp/hcl/v2/hclsyntax"
@@ -30,6 +34,34 @@ type rangeChecker struct {
 	input  string
 	failed bool
 	nodes  map[string]int
+}
+
+// lineLeading checks the start of a literal that begins a line of a flush heredoc after the common
+// indentation was removed: the bytes between the start of the line and the literal's start are the removed
+// white space, so they must be whole characters, and their number (in grapheme clusters) is the column shift.
+// Literals that do not begin their line (text before them on the line) derive their position from the tokens
+// and are covered by the tiling checks.
+func (c *rangeChecker) lineLeading(r hcl.Range, what string) {
+	p := r.Start
+	if p.Byte < 0 || p.Byte > len(c.src) {
+		c.fail("position-outside-source:"+what, "the start of the range of a "+what+" is outside the source", r.String())
+		return
+	}
+	ls := bytes.LastIndexByte(c.src[:p.Byte], '\n') + 1
+	pre := c.src[ls:p.Byte]
+	if !utf8.Valid(pre) || (p.Byte < len(c.src) && !utf8.RuneStart(c.src[p.Byte])) {
+		c.fail("position-splits-character:"+what, fmt.Sprintf("the start of the range of a %s (byte %d) lies inside a multi-byte character", what, p.Byte), r.String())
+		return
+	}
+	for _, ch := range string(pre) {
+		if !unicode.IsSpace(ch) {
+			return // not line-leading
+		}
+	}
+	n, _ := textseg.TokenCount(pre, textseg.ScanGraphemeClusters)
+	if p.Column != n+1 {
+		c.fail("position-inconsistent:"+what, fmt.Sprintf("the range of a %s starts at byte %d, %d white-space characters into its line, but says column %d", what, p.Byte, n, p.Column), r.String())
+	}
 }
 
 type tmplRoot struct {
@@ -232,6 +264,11 @@ func (c *rangeChecker) tmplParse(s string, root *tmplRoot) (*hclsyntax.TemplateE
 }
 
 func (c *rangeChecker) tmplLiteral(x *hclsyntax.LiteralValueExpr, ctx exprCtx) {
+	if ctx.root != nil && ctx.root.kind == "flush" {
+		// the text is not re-parsed (the removed indentation is not part of the literal), but where it starts
+		// and ends must still be a faithful position
+		c.lineLeading(x.Range(), "flush-heredoc-literal")
+	}
 	if ctx.root == nil || ctx.root.kind == "flush" {
 		c.nodes["template-literal-unchecked"]++
 		return
